@@ -96,9 +96,11 @@ def als_func(X_trn, y_trn, A0, a=-1., b=+1., nswp=50, e=1.E-16, info={}, *,
             teneva.poi_scale(X, a, b, kind='cheb'), fh_size)]*d
     else:
         try:
-            assert len(fh) == d, "Number of functions must be the same as TT-dimension"
+            fh_len = len(fh)
         except TypeError:
             fh = [fh]*d
+        else:
+            assert fh_len == d, "Number of functions must be the same as TT-dimension"
 
         is_cheb = False
 
